@@ -1365,6 +1365,18 @@ fn crash_like_case(mode: &str, seed: u64, idx: u64, thorough: bool, stats: &mut 
 const AUDIT_SYSCALLS: &str = "open,openat,openat2,creat,write,pwrite64,writev,pwritev,pwritev2,ftruncate,truncate,fsync,fdatasync,sync_file_range,syncfs,rename,renameat,renameat2,unlink,unlinkat,mkdir,mkdirat,rmdir,link,linkat,symlink,symlinkat,fallocate,copy_file_range,sendfile,splice,io_uring_setup,mmap";
 
 fn audit_case(seed: u64, idx: u64, thorough: bool, stats: &mut Counts) -> Result<String, Deviation> {
+    // a few programs are not run-to-run deterministic in their flush pattern; a disagreement only counts
+    // when it shows up in two independent pairs of runs
+    match audit_once(seed, idx, thorough, stats) {
+        Err(d) if d.sig == "inconclusive:shim-audit-mismatch" => {
+            stats.inc("audit.retries_after_mismatch");
+            audit_once(seed, idx, thorough, stats)
+        }
+        other => other,
+    }
+}
+
+fn audit_once(seed: u64, idx: u64, thorough: bool, stats: &mut Counts) -> Result<String, Deviation> {
     let plan = gen_program("crash", seed, idx, thorough);
     // (1) the run under the shim
     let run = run_child(&plan, &[], false, false)?;
@@ -1457,12 +1469,34 @@ fn audit_case(seed: u64, idx: u64, thorough: bool, stats: &mut Counts) -> Result
                     continue; // failed call
                 }
                 let retnum: u64 = ret.split(|c: char| !c.is_ascii_digit()).next().and_then(|x| x.parse().ok()).unwrap_or(0);
-                // first path under the root mentioned in the arguments (fd annotation <path> or string argument "path")
+                // the file the call acts on: descriptor calls carry an annotation fd</path>; path calls a quoted
+                // string, possibly relative to an annotated directory descriptor (unlinkat(5</dir>, "name", ...))
                 let args = &line[open + 1..eq];
-                let Some(pos) = args.find(&root) else { continue };
-                let tail = &args[pos..];
-                let end = tail.find(['>', '"']).unwrap_or(tail.len());
-                let rel = norm(&tail[root.len()..end]);
+                let fd_path = |a: &str| -> Option<String> {
+                    let lt = a.find('<')?;
+                    let gt = a[lt..].find('>')? + lt;
+                    Some(a[lt + 1..gt].to_string())
+                };
+                let full: Option<String> = match call {
+                    "write" | "pwrite64" | "writev" | "pwritev" | "pwritev2" | "ftruncate" | "fsync" | "fdatasync" | "sync_file_range" | "fallocate" | "mmap" => fd_path(args),
+                    _ => {
+                        // first quoted argument
+                        args.find('"').and_then(|q| {
+                            let rest = &args[q + 1..];
+                            let end = rest.find('"')?;
+                            let name = &rest[..end];
+                            if name.starts_with('/') {
+                                Some(name.to_string())
+                            } else {
+                                let dir = fd_path(&args[..q])?;
+                                Some(format!("{dir}/{name}"))
+                            }
+                        })
+                    }
+                };
+                let Some(full) = full else { continue };
+                let Some(relp) = full.strip_prefix(&root) else { continue };
+                let rel = norm(relp);
                 let name = match call {
                     "write" | "pwrite64" | "writev" | "pwritev" | "pwritev2" => "write",
                     "ftruncate" | "truncate" => "ftruncate",
